@@ -253,9 +253,15 @@ int tokens_unget_char(AsmContext *asm_context, int ch)
 
 int tokens_get(AsmContext *asm_context, char *token, int len)
 {
-  int token_type = TOKEN_EOF;
+  int token_type;
   int ch;
-  int ptr = 0;
+  int ptr;
+
+  // An expanded macro or define is read by starting over, not by
+  // recursing: a line can use an empty .define any number of times.
+restart:
+  token_type = TOKEN_EOF;
+  ptr = 0;
 
 #ifdef DEBUG
 //printf("Enter tokens_get()\n");
@@ -739,10 +745,7 @@ printf("debug> '%s' is a macro.  param_count=%d\n", token, param_count);
 //  asm_context->tokens.unget_ptr);
 #endif
 
-      token_type = tokens_get(asm_context, token, len);
-#ifdef DEBUG
-//printf("debug> expanding.. '%s'\n", token);
-#endif
+      goto restart;
     }
       else
     if (token[0] == '0' && token[1] == 'x')
